@@ -74,7 +74,7 @@ func S1a(tier string, fees bool) *Scenario {
 		Bidders: []string{"bid1", "bid2"}, AllowBidders: []string{"bid1", "bid2"},
 		AllowCaps: []string{"3", "10"}, UpdateCaps: []string{"5"},
 		FixedAmts:  []string{"3", "7"},
-		Cancellers: []string{"auc1", "bid1"},
+		Cancellers: []string{"auc1", "auc1^", "bid1"}, // auc1^: the auctioneer writing its address in upper case
 		MaxK:       5, Rejects: true,
 	}
 	prices := []string{"0.5", "3"}
